@@ -18,7 +18,7 @@ var validPool = map[ValKind][]string{
 	KInt:    {"0", "7", "-3", "42", "+5", "007", "2147483648", "-9223372036854775808", "9223372036854775807"},
 	KFloat:  {"0", "1.5", "-2.25", "1e3", ".5", "inf", "-Inf", "NaN", "1e-7", "0x1p-2", "-0"},
 	KBool:   {"true", "false", "1", "0", "t", "F", "TRUE", "False"},
-	KString: {"a", "hello world", "x=y", "-dash", "  padded ", "a,b", "é✓", "--", "-", "v"},
+	KString: {"a", "hello world", "x=y", "-dash", "  padded ", "a,b", "é✓", "--", "-", "v", "\\-v", "a\\b", "\"quoted\"", "\"", "'x'", "$HOME", "%s", "no-v"},
 }
 
 var invalidPool = map[ValKind][]string{
@@ -158,6 +158,7 @@ func genContainerOpt(t *Tape, yieldProbe bool) *contCase {
 		}
 	}
 	d.PtrForm = t.Draw(2) == 1
+	d.HideValue = t.Draw(5) == 0
 	d.PrePop = d.PtrForm && t.Draw(3) == 0
 	if len(states) == 0 && t.Draw(3) == 0 {
 		d.Short, d.NoSBU = true, true
